@@ -39,7 +39,7 @@ func (w *worker[T]) Do(ctx context.Context, r func(WorkItemResult[T]), wrk WorkI
 	if ctx.Err() != nil {
 		err = ctx.Err()
 	} else {
-		data, err = wrk(ctx)
+		data, err = runWorkItem(ctx, wrk)
 	}
 
 	r(WorkItemResult[T]{
@@ -54,6 +54,19 @@ func (w *worker[T]) Do(ctx context.Context, r func(WorkItemResult[T]), wrk WorkI
 	case w.Queue <- w:
 	default:
 	}
+}
+
+// runWorkItem executes a work item and turns a panic into an error result:
+// work items run on goroutines of the worker group, where an unrecovered panic
+// would terminate the whole process and leave the submitter without a result
+func runWorkItem[T any](ctx context.Context, wrk WorkItem[T]) (data T, err error) {
+	defer func() {
+		if r := recover(); r != nil {
+			err = fmt.Errorf("panic in work item: %v", r)
+		}
+	}()
+
+	return wrk(ctx)
 }
 
 type GroupedItem[T any] struct {
